@@ -1782,6 +1782,12 @@ func c01Ends(c *vh.Ctx) {
 		nDirected, len(cases)-nDirected, skipped, cmdCases, spawnsUsed))
 
 	c.Note(fmt.Sprintf("timing: endings stream generation %.1fs", time.Since(t0).Seconds()))
+	enRunCases(c, cases, nil)
+	c.Note(fmt.Sprintf("timing: endings stream %.1fs", time.Since(t0).Seconds()))
+}
+
+// enRunCases runs every case in its two spellings on the real interpreter and compares each with the reference result.
+func enRunCases(c *vh.Ctx, cases []*enCase, extra func(cs *enCase)) {
 	type outT struct {
 		a, b   enObs
 		ta, tb bool
@@ -1826,7 +1832,7 @@ func c01Ends(c *vh.Ctx) {
 		}
 		c.Hit("ends:Config.Output:" + cs.WriterA)
 		c.Hit("ends:Config.Output:" + cs.WriterB)
-		if cs.Coord != nil {
+		if cs.Coord != nil && cs.Coord["ending"] != "" {
 			for _, f := range []string{"ending", "block", "via", "nest", "position", "sync", "output-before"} {
 				c.Hit("ends:at:" + f + ":" + cs.Coord[f])
 			}
@@ -1848,6 +1854,9 @@ func c01Ends(c *vh.Ctx) {
 		}
 		if cs.marks["max-depth"] >= 100 {
 			c.Hit("ends:call-depth>=100")
+		}
+		if extra != nil {
+			extra(cs)
 		}
 		nf := 0
 		for n, content := range cs.Expected.Files {
@@ -1884,7 +1893,6 @@ func c01Ends(c *vh.Ctx) {
 	if parseBad*20 > len(cases) {
 		panic("endings stream: too many generated programs do not parse")
 	}
-	c.Note(fmt.Sprintf("timing: endings stream %.1fs", time.Since(t0).Seconds()))
 }
 
 var _ = io.Discard
